@@ -24,6 +24,7 @@ use spec::{CentralDirectoryEnd, Zip64CentralDirectoryEndLocator, Zip64CentralDir
 //@include spec/seqlemmas.rs
 //@include spec/appnote_end.rs
 //@include spec/appnote_headers.rs
+//@include spec/dos_datetime.rs
 //@include spec/extra_walk.rs
 //@include spec/parsed.rs
 
